@@ -63,6 +63,12 @@ func (h *slowHandler) open() {
 	h.mu.Unlock()
 }
 
+func (h *slowHandler) shut() bool {
+	h.mu.Lock()
+	defer h.mu.Unlock()
+	return h.gate != nil
+}
+
 func (h *slowHandler) nEntered() int {
 	h.mu.Lock()
 	defer h.mu.Unlock()
@@ -92,11 +98,14 @@ type ptTarget struct {
 }
 
 type burstRes struct {
-	SlowEntered   int    `json:"slow_queries_in_handler"`
-	ExtraAnswered bool   `json:"extra_query_answered"`
-	SlowAnswered  int    `json:"slow_queries_answered"`
-	ServerClosed  bool   `json:"server_closed_connection"`
-	ReadErr       string `json:"read_end"`
+	SlowEntered   int  `json:"slow_queries_in_handler"`
+	ExtraAnswered bool `json:"extra_query_answered"`
+	SlowAnswered  int  `json:"slow_queries_answered"`
+	ServerClosed  bool `json:"server_closed_connection"`
+	// ExtraWhileFull: the extra query was answered while the gate was shut and
+	// all N slow queries of the same connection were parked in the handler.
+	ExtraWhileFull bool   `json:"extra_query_answered_while_pipeline_full"`
+	ReadErr        string `json:"read_end"`
 }
 
 func ptDial(t *ptTarget, tlsClient *tls.Config) (net.Conn, error) {
@@ -167,7 +176,26 @@ func (t *ptTarget) burst(tlsClient *tls.Config) (res burstRes, ok bool, err erro
 	if res.SlowEntered < t.N {
 		return res, false, nil
 	}
-	time.Sleep(ptHold)
+	// While the gate is shut nothing but the extra query can be answered; an
+	// answer now means it was processed next to N parked queries.
+	holdEnd := time.Now().Add(ptHold)
+	for time.Now().Before(holdEnd) {
+		_ = c.SetReadDeadline(holdEnd)
+		m, rerr := ptRead(c)
+		if rerr != nil {
+			var ne net.Error
+			if !(errors.As(rerr, &ne) && ne.Timeout()) {
+				res.ReadErr = rerr.Error()
+				res.ServerClosed = true
+				return res, true, nil
+			}
+			break
+		}
+		if m.Id == 1000 {
+			res.ExtraAnswered = true
+			res.ExtraWhileFull = t.h.shut() && t.h.nEntered() >= t.N
+		}
+	}
 	t.h.open()
 	// what the server still sends, until it closes the connection or goes quiet
 	for {
@@ -243,6 +271,17 @@ func ptRun(r *vkit.Run, where string, t *ptTarget, tlsClient *tls.Config, bursts
 			res, ok, err = t.burst(tlsClient)
 			if err != nil {
 				r.Inconclusive(fmt.Sprintf("%s: cannot connect to %s: %v", where, t.Addr, err))
+				return false
+			}
+			if ok && res.ExtraWhileFull {
+				w := map[string]any{"target": t, "burst": res}
+				for k, v := range desc {
+					w[k] = v
+				}
+				r.Violation(where+":pipeline-bound-exceeded:query-processed-while-pipeline-full",
+					fmt.Sprintf("%s: pipeline limit %d: %d queries of one connection were parked inside the handler (gate shut) and a further query of the same connection was processed and answered all the same: %d at the same time",
+						t.Name, t.N, t.N, t.N+1),
+					w)
 				return false
 			}
 			if ok && !res.ExtraAnswered {
